@@ -12,13 +12,18 @@ def run(ctx):
     ctx.rule = ("case = one FIBER call traced through the hook (controller steps, energy, finiteness) or one exact-solution / convergence measurement, "
                 "judged by TLC; class = (kind, layout, leading zeros, dispersion signs, loss, gamma class, phi_max class)")
     T = ctx.thorough
-    base = "SPECIFICATION Spec\nINVARIANT StepsSumToLength\nINVARIANT FiniteSteps\nINVARIANT BoundedWork\nPROPERTY Terminates\nCHECK_DEADLOCK FALSE\n"
-    ctx.tlc("FiberStep", base + ("CONSTANTS L = 24\n K = 24\n Peaks = {0,1,2,3,4,6,8,12,24}\n Guarded = TRUE\n" if T else
-                                 "CONSTANTS L = 12\n K = 12\n Peaks = {0,1,2,3,4,6}\n Guarded = TRUE\n"), note="step controller: safety and termination", actions=["First", "Loop", "Last"])
-    neg = ctx.tlc("FiberStep", base + "CONSTANTS L = 12\n K = 12\n Peaks = {0,1,2,3}\n Guarded = FALSE\n", expect_ok=False, count=False,
+    base = ("SPECIFICATION Spec\nINVARIANT StepsSumToLength\nINVARIANT FiniteSteps\nINVARIANT BoundedWork\nINVARIANT WithinFibre\nINVARIANT NeverBackward\n"
+            "PROPERTY Terminates\nCHECK_DEADLOCK FALSE\n")
+    ctx.tlc("FiberStep", base + ("CONSTANTS L = 24\n K = 96\n Peaks = {0,1,2,3,4,6,8,12,24,48,96}\n Guarded = TRUE\n Clamped = TRUE\n" if T else
+                                 "CONSTANTS L = 12\n K = 48\n Peaks = {0,1,2,4,6,8,12,48}\n Guarded = TRUE\n Clamped = TRUE\n"), note="step controller: safety and termination", actions=["First", "Loop", "Last"])
+    neg = ctx.tlc("FiberStep", base + "CONSTANTS L = 12\n K = 12\n Peaks = {0,1,2,3}\n Guarded = FALSE\n Clamped = TRUE\n", expect_ok=False, count=False,
                   note="negative control: unguarded controller (zero peak)")
     if not neg.violated:
         raise MachineryError("negative control of FiberStep did not fail: the controller model is vacuous")
+    neg = ctx.tlc("FiberStep", base + "CONSTANTS L = 12\n K = 48\n Peaks = {1,2,4,48}\n Guarded = TRUE\n Clamped = FALSE\n", expect_ok=False, count=False,
+                  note="negative control: unclamped controller (weak field: first step beyond the fibre end, negative last step)")
+    if not ({"WithinFibre", "NeverBackward"} & set(neg.violated)):
+        raise MachineryError("negative control of FiberStep (unclamped) did not fail: the controller model is vacuous")
     ctx.exhaustive = True
     import_repo()
     import opticomlib.devices as dv
@@ -29,7 +34,7 @@ def run(ctx):
 
     def rel(a, b):
         a, b = np.asarray(a), np.asarray(b)
-        if a.shape != b.shape or not np.all(np.isfinite(a)):
+        if a.shape != b.shape or not np.all(np.isfinite(a)) or not np.all(np.isfinite(b)):
             return 10 ** 9
         return int(min(10 ** 9, float(np.max(np.abs(a - b)) / max(np.max(np.abs(b)), 1e-300)) * 1e12))
 
@@ -44,7 +49,7 @@ def run(ctx):
         log = []
         dv._verif_tracer = lambda kind, h, xl, A: log.append((kind, float(h), np.array(A, copy=True)))
         try:
-            with deadline(300):
+            with deadline(90):
                 out = FIBER(x, **kw)
         finally:
             dv._verif_tracer = None
@@ -81,15 +86,22 @@ def run(ctx):
         if npol == 2 and it % 8 == 3:
             fld[0] = 0                      # x polarisation empty, field in y only
         if it % 6 == 5:
-            fld = fld * math.sqrt(1e-3 / peak(fld))        # weak signal: the first adaptive step is longer than the fibre (overshoot + negative last step)
+            # weak signals: the unclamped adaptive step would be longer (by up to hundreds of orders of magnitude) than the fibre
+            fld = fld * math.sqrt([1e-3, 1e-6, 1e-12, 1e-30, 1e-200][(it // 6) % 5] / peak(fld))
+        if it % 24 == 22:
+            fld = fld * 0                                   # a dark field
+        if it % 8 == 6:
+            fld = np.abs(fld) if npol == 1 else np.array([np.abs(fld[0]), -np.abs(fld[1])])       # a field stored as float64
         x = optical_signal(fld)
         x.signal.flags.writeable = False
         P = peak(fld)
         L = rnd.uniform(1, 100)
-        gamma = min(rnd.uniform(0.2, 5), 10.0 / (P * L))
+        gamma = min(rnd.uniform(0.2, 5), 10.0 / (max(P, 1e-300) * L))
         if it % 6 == 5:
             L, gamma = rnd.uniform(5, 30), rnd.uniform(0.5, 1.5)
         al, b2, b3 = rnd.choice([0, 0.2, 0.5]), rnd.uniform(-25, 25), rnd.uniform(-0.2, 0.2) * rnd.choice([0, 1])
+        if it % 5 == 4:
+            b2, b3 = 0.0, rnd.choice([-0.3, 0.2, 0.5])      # zero-dispersion wavelength: third-order dispersion only
         phi = rnd.choice([0.1, 0.05, 0.01] + ([5e-4] if T and gamma * P * L < 1 else []))
         out, log = traced(x, length=L, alpha=al, beta_2=b2, beta_3=b3, gamma=gamma, phi_max=phi)
         so = np.asarray(out.signal)
@@ -108,7 +120,9 @@ def run(ctx):
         for kind, h, A in log:
             if kind == "start":
                 continue
-            steps.append({"kind": kind, "hk_ppb": 0 if kind == "last" else int(min(10 ** 9, abs(h * gamma * peak(prev) / phi - 1) * 1e9))})
+            want_h = L if peak(prev) == 0 else min(phi / (gamma * peak(prev)), L)        # the step the design prescribes from the field before it
+            steps.append({"kind": kind, "hk_ppb": 0 if kind == "last" else int(min(10 ** 9, abs(h / want_h - 1) * 1e9)), "forward": bool(h > 0),
+                          "inside": bool(sum(hh for kk, hh, AA in log[:len(steps) + 2] if kk != "start") <= L * (1 + 1e-9))})
             prev = A
             pmax = max(pmax, peak(A))
         tot = sum(h for kind, h, A in log if kind != "start")
@@ -119,6 +133,8 @@ def run(ctx):
         if npol == 1:
             two = FIBER(optical_signal(np.array([fld, 0 * fld])), L, al, b2, b3, gamma, phi)
             law("1pol=x-row-of-2pol-with-empty-y", so + 1, two.signal[0] + 1)
+        if not np.iscomplexobj(fld):
+            law("real-dtype-field=complex-dtype-field", so + 1, FIBER(optical_signal(fld.astype(complex)), L, al, b2, b3, gamma, phi).signal + 1)
     # ------------------------------------------------------------------ exact solutions
     setgv(0)
     for it in range(150 if T else 12):
@@ -127,6 +143,11 @@ def run(ctx):
         P0 = rs.uniform(0.01, 0.4)
         levels = rs.randint(0, 4, n)                      # |in|^2 in {0, P0, 2P0, 3P0}
         fld = np.sqrt(levels * P0) * np.exp(1j * rs.uniform(0, 6.28, n))
+        if it % 4 == 2:
+            fld = np.sqrt(levels * P0) * np.where(rs.rand(n) < 0.5, 1.0, -1.0)         # the same kind of field stored as float64
+        elif it % 4 == 3:
+            P0, levels = 1.0, rs.choice([0, 1, 4], n)
+            fld = np.sqrt(levels).astype(int) * np.where(rs.rand(n) < 0.5, 1, -1)       # ... and as integers (amplitudes 0, 1, 2 sqrt(W))
         m = rnd.choice([1, 2, 3, 5])
         L = rs.uniform(1, 80)
         gamma = (math.pi / 2) * m / (P0 * L)
@@ -144,7 +165,7 @@ def run(ctx):
             law("SPM-closed-form-with-loss", FIBER(FIBER(x, L1, al, 0, 0, gamma), L2, al, 0, 0, gamma).signal + 1, FIBER(x, L, al, 0, 0, gamma).signal + 1)
             law("SPM-closed-form", FIBER(FIBER(x, L1, 0, 0, 0, gamma), L2, 0, 0, 0, gamma).signal + 1, o.signal + 1)
             law("linear-limit=DM", FIBER(x, L, 0.0, 7.5, 0.0, 0.0).signal + 1, DM(x, 7.5 * L).signal + 1)
-        ctx.case(("spm", m, npol, al), {"SPM": {"gamma*P0*L": "(pi/2)*%d" % m, "L": L, "P0": P0}})
+        ctx.case(("spm", m, npol, al, str(fld.dtype)), {"SPM": {"gamma*P0*L": "(pi/2)*%d" % m, "L": L, "P0": P0}})
     # fundamental soliton: beta2*gamma > 0, P0 = beta2/(gamma T0^2), gamma P0 L / 2 = (pi/2) m  =>  out = j^m * in
     with warnings.catch_warnings():
         warnings.simplefilter("ignore")
